@@ -709,7 +709,7 @@ def spec_adopt(row):
             if not str(e[1]).startswith("user ") and e[1] != "callback":
                 probs.append("path panics: %s" % (e,))
         # the holder may be re-grayed; for stash (which knows the child) marking the child is an equally valid barrier
-        probs += only_colour_moves(row, out, {1: set(REGRAY), 2: set(STRONG_MARK)})
+        probs += only_colour_moves(row, out, {1: set(REGRAY), 2: (set(REGRAY) | set(STRONG_MARK)) if pre.get("discovered") else set(STRONG_MARK)})
         if out.kind != "return":
             continue
         stored = out.has("cell_store") or getattr(row, "ret_write", False) or out.has("unlocked")
@@ -718,6 +718,13 @@ def spec_adopt(row):
         if pre["phase"] != "Mark" or pre["Pnt"] == 0 or not stored:
             continue
         p_post = out.post["objs"][1]["colour"]
+        if pre.get("discovered"):
+            # every Gc argument of the function may have come to hold what another one held
+            for idx, ck, nk in ((1, "P", "Pnt"), (2, "O", "Ont")):
+                if ck in pre and pre[ck] == "B" and pre[nk] == 1 and out.post["objs"][idx]["colour"] == "B":
+                    probs.append("%s: stores into the lock(s) it is given while argument %d stays Black: whatever it adopted "
+                                 "from the other side (or from the value passed in) is never traced" % (pre["path"], idx))
+            continue
         if "C" in pre:
             c_post = out.post["objs"][2]["colour"]
             if p_post == "B" and c_post in WHITE:
